@@ -128,6 +128,20 @@ def mc(module, cfg, workers=8, timeout=3600, env=None, extra=None, require_actio
     return r
 
 
+def simulate(module, cfg, num, depth, workers=8, timeout=1800, env=None):
+    """TLC simulation mode (random behaviours) for configurations whose exhaustive model no longer finishes"""
+    r = tlc(module, cfg, env=env, workers=workers, extra=["-simulate", f"num={num}", "-depth", str(depth)], timeout=timeout)
+    m = re.search(r"The number of states generated: (\d+)", r["out"])
+    r["generated"] = int(m.group(1)) if m else 0
+    r["states"] = r["generated"]
+    if r["error"] or r["generated"] == 0:
+        log(r["out"][-3000:])
+        raise ToolError(f"specification-level failure in simulation of {module} / {cfg}")
+    m = re.search(r"(\d+) traces generated", r["out"])
+    r["traces"] = int(m.group(1)) if m else 0
+    return r
+
+
 def dump_graph(module, cfg, name, workers=4, timeout=600, env=None):
     d = os.path.join(WORK, "graphs")
     os.makedirs(d, exist_ok=True)
